@@ -75,7 +75,7 @@ def run_one(m):
         shutil.rmtree(tmp, ignore_errors=True)
 
 
-def for_property(prop, jobs=6):
+def for_property(prop, jobs=10):
     """Run the mutants/refactors that concern one property; returns list of (id, status, why)."""
     ms = json.load(open(os.path.join(VERIF, "selftest", "mutants.json")))
     sel = []
